@@ -22,6 +22,8 @@ pub enum Ins {
     Mark(usize),
     /// PUSH5 0x01_0000_<offset of label>: a target >= 2^32 whose low bits name the label
     PushLabelHigh(usize),
+    /// PUSH32 (high + offset of label): a target with arbitrary high bits whose low bits name the label
+    PushLabelPlus(usize, W),
 }
 
 pub const STOP: u8 = 0x00;
@@ -97,6 +99,7 @@ pub fn size_of(i: &Ins) -> usize {
         Ins::PushData(_, b) => 1 + b.len(),
         Ins::Mark(_) => 0,
         Ins::PushLabelHigh(_) => 6,
+        Ins::PushLabelPlus(_, _) => 33,
     }
 }
 
@@ -140,6 +143,11 @@ pub fn assemble(prog: &[Ins]) -> Vec<u8> {
             Ins::PushLabelHigh(l) => {
                 let t = labels.get(l).copied().unwrap_or(0xffff).min(0xffff);
                 out.extend_from_slice(&[0x64, 0x01, 0x00, 0x00, (t >> 8) as u8, t as u8]);
+            }
+            Ins::PushLabelPlus(l, high) => {
+                let t = labels.get(l).copied().unwrap_or(0xffff).min(0xffff);
+                out.push(0x7f);
+                out.extend_from_slice(&high.add(W::from_u64(t as u64)).to_be_bytes());
             }
         }
     }
